@@ -226,9 +226,20 @@ def build_shared_features_map(mod: fx.GraphModule,
 def feeds_excluded_layer(n: fx.Node, mod: fx.GraphModule,
                          exclude_names: Iterable[str],
                          exclude_types: Iterable[Type[nn.Module]]) -> bool:
-    """Returns True if one of the users of `n` is a layer that PIT could optimize, but that is
-    excluded from the search: its input features cannot be pruned, since it is exported as is."""
-    return any(is_excluded_layer(u, mod, exclude_names, exclude_types) for u in n.users)
+    """Returns True if the features of `n` reach (unchanged, flattened or concatenated with others)
+    a layer that PIT could optimize, but that is excluded from the search: its input features
+    cannot be pruned, since it is exported as is."""
+    stack, seen = list(n.users), set()
+    while stack:
+        u = stack.pop()
+        if u in seen:
+            continue
+        seen.add(u)
+        if is_excluded_layer(u, mod, exclude_names, exclude_types):
+            return True
+        if not (u.meta['features_defining'] or u.meta['untouchable']):
+            stack.extend(u.users)
+    return False
 
 
 def is_excluded_layer(n: fx.Node, mod: fx.GraphModule,
